@@ -31,49 +31,79 @@ structure NM (obj : List α → α) (lo hi : List α) (lr : LocalResult α) (sta
   value : lr.fx = obj lr.x
   le_start : lr.fx ≤ obj start
 
-/-- **C05, refinement.**  `DoLocalRefinement` on a solver that has done its first iteration (method state `s`, best trial `b` =
-the item with id `s.best`):
+/-- **C05, refinement.**  `DoLocalRefinement` on a solver that has done its first iteration (method state `s`); the trial it
+refines is the REPORTED trial `rid = reportedId ps s` (what `GetResults()` returns: the method's best `s.best`, unless an earlier
+refinement left another trial with a strictly smaller value holder; on the first refinement `rid = s.best`).  It
 
-* changes ONLY the `point` and the value holder `hv` of the item(s) with id `best`, and `numberOfLocalTrials` (`nLocal := nfev`):
+* changes ONLY the `point` and the value holder `hv` of the item(s) with id `rid`, `numberOfLocalTrials` (`nLocal := nfev`) and
+  `__refinedTrial` (`refined := some rid`):
   every item keeps `id, x, z, ev, delta, R`, items with another id are untouched, the order and number of items,
   `M`, `Z`, `best`, the queue, `recalc`, `iters`, `minDelta`, `nTrials`, `nextId`, the records `evals`, `calls` and the event log are unchanged;
-* the new best trial is `b` with `point := lr.x`, `hv := lr.fx`;
+* the refined trial `b` becomes `b` with `point := lr.x`, `hv := lr.fx`; it is still the reported trial afterwards if it is the method's
+  best or the new value is strictly below the value holder of the method's best (always the case under the Nelder–Mead contract over
+  an ordered field: `C04.C04_refine_keeps_reported`);
 * under the Nelder–Mead contract `NM` (started at `b.point`) and fidelity of the old record (`b.hv = obj b.point`), the new reported
   value is the objective at the new reported point, is `≤` the old reported value, and the new point is inside the box. -/
 theorem C05_refine (ps : PState α) (s : State α) (lr : LocalResult α) (hm : ps.m = some s) :
     ∃ s', (doLocalRefinement ps lr).m = some s' ∧
       -- only the items change, and only as described
-      s' = { s with items := s.items.map (refineItem s.best lr) } ∧
+      s' = { s with items := s.items.map (refineItem (reportedId ps s) lr) } ∧
       s'.items.length = s.items.length ∧
       (∀ (i : Nat) (it : Item α), s.items[i]? = some it → ∃ it' : Item α, s'.items[i]? = some it' ∧
         it'.id = it.id ∧ it'.x = it.x ∧ it'.z = it.z ∧ it'.ev = it.ev ∧ it'.delta = it.delta ∧ it'.R = it.R ∧
-        (it.id ≠ s.best → it' = it) ∧ (it.id = s.best → it' = { it with point := lr.x, hv := lr.fx })) ∧
+        (it.id ≠ reportedId ps s → it' = it) ∧ (it.id = reportedId ps s → it' = { it with point := lr.x, hv := lr.fx })) ∧
       s'.M = s.M ∧ s'.Z = s.Z ∧ s'.best = s.best ∧ s'.queue = s.queue ∧ s'.recalc = s.recalc ∧ s'.iters = s.iters ∧
       s'.minDelta = s.minDelta ∧ s'.nTrials = s.nTrials ∧ s'.nextId = s.nextId ∧
       (doLocalRefinement ps lr).evals = ps.evals ∧ (doLocalRefinement ps lr).calls = ps.calls ∧
       (doLocalRefinement ps lr).log = ps.log ∧ (doLocalRefinement ps lr).nLocal = lr.nfev ∧
-      -- the reported best trial
-      (∀ b : Item α, findItem s.items s.best = some b →
-        findItem s'.items s'.best = some { b with point := lr.x, hv := lr.fx } ∧
+      (doLocalRefinement ps lr).refined = some (reportedId ps s) ∧
+      -- the reported trial
+      (∀ b : Item α, findItem s.items (reportedId ps s) = some b →
+        findItem s'.items (reportedId ps s) = some { b with point := lr.x, hv := lr.fx } ∧
+        ((reportedId ps s = s.best ∨ ∀ bi, findItem s.items s.best = some bi → lr.fx < bi.hv) →
+          reportedId (doLocalRefinement ps lr) s' = reportedId ps s) ∧
         ∀ (obj : List α → α) (lo hi : List α), NM obj lo hi lr b.point → b.hv = obj b.point →
           lr.fx ≤ b.hv ∧ lr.fx = obj lr.x ∧ InBox lo hi lr.x) := by
-  refine ⟨{ s with items := s.items.map (refineItem s.best lr) }, ?_, rfl, by simp, ?_, rfl, rfl, rfl, rfl, rfl, rfl, rfl,
-    rfl, rfl, ?_, ?_, ?_, ?_, ?_⟩
+  refine ⟨{ s with items := s.items.map (refineItem (reportedId ps s) lr) }, ?_, rfl, by simp, ?_, rfl, rfl, rfl, rfl, rfl, rfl, rfl,
+    rfl, rfl, ?_, ?_, ?_, ?_, ?_, ?_⟩
   · rw [doLocalRefinement_some lr hm]
   · intro i it hi
-    refine ⟨refineItem s.best lr it, by simp [hi], ?_⟩
-    obtain ⟨f1, f2, f3, f4, f5, f6⟩ := refineItem_fields s.best lr it
+    refine ⟨refineItem (reportedId ps s) lr it, by simp [hi], ?_⟩
+    obtain ⟨f1, f2, f3, f4, f5, f6⟩ := refineItem_fields (reportedId ps s) lr it
     exact ⟨f1, f2, f3, f4, f5, f6, fun h => refineItem_of_ne lr h, fun h => refineItem_of_eq lr h⟩
   · rw [doLocalRefinement_some lr hm]
   · rw [doLocalRefinement_some lr hm]
   · rw [doLocalRefinement_some lr hm]
   · rw [doLocalRefinement_some lr hm]
+  · rw [doLocalRefinement_some lr hm]
+  · intro b hb
+    have hbid : b.id = reportedId ps s := by
+      have := List.find?_some hb
+      simpa using this
+    have hfind : findItem (s.items.map (refineItem (reportedId ps s) lr)) (reportedId ps s) =
+        some { b with point := lr.x, hv := lr.fx } := by
+      rw [findItem_map_refineItem, hb]
+      simp [refineItem_of_eq lr hbid]
+    refine ⟨hfind, ?_, fun obj lo hi hnm hfid => ⟨by rw [hfid]; exact hnm.le_start, hnm.value, hnm.inside⟩⟩
+    intro hcase
+    exact reportedId_doLocalRefinement lr hm hb hcase
+
+/-- **C05, first refinement.**  When nothing was refined before (`ps.refined = none`: the first `Solve`, or any use of the solver
+before the first `DoLocalRefinement`), the refined trial is the method's best `s.best`, and it is the reported trial before and after. -/
+theorem C05_refine_first (ps : PState α) (s : State α) (lr : LocalResult α) (hm : ps.m = some s) (hr : ps.refined = none) :
+    reportedId ps s = s.best ∧
+    (doLocalRefinement ps lr).m = some { s with items := s.items.map (refineItem s.best lr) } ∧
+    (doLocalRefinement ps lr).refined = some s.best ∧
+    reportedId (doLocalRefinement ps lr) { s with items := s.items.map (refineItem s.best lr) } = s.best ∧
+    (∀ b : Item α, findItem s.items s.best = some b →
+      findItem (s.items.map (refineItem s.best lr)) s.best = some { b with point := lr.x, hv := lr.fx }) := by
+  have h0 := reportedId_of_none s hr
+  refine ⟨h0, by rw [doLocalRefinement_some_first lr hm hr], by rw [doLocalRefinement_some_first lr hm hr], ?_, ?_⟩
+  · exact reportedId_eq_best_of_refined_eq (by rw [doLocalRefinement_some_first lr hm hr])
   · intro b hb
     have hbid : b.id = s.best := by
       have := List.find?_some hb
       simpa using this
-    refine ⟨?_, fun obj lo hi hnm hfid => ⟨by rw [hfid]; exact hnm.le_start, hnm.value, hnm.inside⟩⟩
-    show findItem (s.items.map (refineItem s.best lr)) s.best = _
     rw [findItem_map_refineItem, hb]
     simp [refineItem_of_eq lr hbid]
 
@@ -113,10 +143,15 @@ example : InBox [0] [1] lr0.x := by
     decide +kernel
   | succ i => simp at hl
 
-/-- the refined solver reports value `0` at `[1/3]` with `numberOfLocalTrials = 7` -/
+/-- the refined solver reports value `0` at `[1/3]` with `numberOfLocalTrials = 7`; it is the first refinement, so the reported
+trial is the method's best, before and after, and it is remembered as the refined trial -/
 example :
-    let ps := doLocalRefinement (solve (P 5 (1/100)) F noRefine {}) lr0
-    (ps.m.bind fun s => (findItem s.items s.best).map fun b => (b.point, b.hv)) = some ([1/3], 0) ∧ ps.nLocal = 7 := by
+    let ps0 := solve (P 5 (1/100)) F noRefine {}
+    let ps := doLocalRefinement ps0 lr0
+    ps0.refined = none ∧
+    (ps.m.bind fun s => (findItem s.items s.best).map fun b => (b.point, b.hv)) = some ([1/3], 0) ∧
+    (ps.m.bind fun s => (findItem s.items (reportedId ps s)).map fun b => (b.point, b.hv)) = some ([1/3], 0) ∧
+    ps.nLocal = 7 ∧ ps.refined = ps0.m.map (·.best) ∧ ps.m.map (reportedId ps) = ps0.m.map (·.best) := by
   decide +kernel
 
 end examples
